@@ -75,9 +75,12 @@ pub fn source_line_text(loc: &str) -> String {
     }
 }
 
-/// The budget of DESIGN §3: 50 000 + 5 000 (|w|+1)(|r|+1).
+/// Step budget proportional to |word| x |rule|: 2 000 + 20 (|w|+1)(|r|+1) loop iterations.
+/// (DESIGN §3 planned 50x more; a loop that grows the word on every iteration costs
+/// O(n^2) before such a budget trips, so the constant was lowered; evidence records the
+/// largest budget fraction any terminating case used.)
 pub fn budget_for(word_chars: usize, rule_chars: usize) -> u64 {
-    50_000 + 5_000 * (word_chars as u64 + 1) * (rule_chars as u64 + 1)
+    2_000 + 20 * (word_chars as u64 + 1) * (rule_chars as u64 + 1)
 }
 
 pub fn guarded<T>(budget: u64, f: impl FnOnce() -> T) -> Out<T> {
@@ -265,6 +268,7 @@ pub struct Report {
     pub viols: Vec<Viol>,
     pub viol_total: u64,
     pub classes: BTreeMap<String, u64>,
+    pub viol_cap: usize,
     pub assumptions: Vec<String>,
     pub extra: BTreeMap<String, Value>,
     pub exhaustive: bool,
@@ -287,7 +291,7 @@ impl Report {
             seed: std::env::var("VERIF_SEED").ok().and_then(|s| s.parse().ok()).unwrap_or(0),
             started: Instant::now(), evaluations: 0, transitions: 0, validated: 0,
             skipped: BTreeMap::new(), states: BTreeSet::new(), states_count_override: None, outcomes: BTreeMap::new(),
-            nontrivial: 0, rule: String::new(), samples: vec![], boxes: vec![], viols: vec![], viol_total: 0, classes: BTreeMap::new(),
+            nontrivial: 0, rule: String::new(), samples: vec![], boxes: vec![], viols: vec![], viol_total: 0, classes: BTreeMap::new(), viol_cap: 400,
             assumptions: vec![], extra: BTreeMap::new(), exhaustive: true, machinery_errors: vec![],
         }
     }
@@ -298,7 +302,7 @@ impl Report {
         let class = v.key.rsplit_once('|').map(|x| x.0.to_string()).unwrap_or(v.key.clone());
         if self.classes.len() < 300 || self.classes.contains_key(&class) { *self.classes.entry(class).or_insert(0) += 1; }
         // keep one representative per key, at most 400 keys
-        if self.viols.len() < 400 && !self.viols.iter().any(|x| x.key == v.key) {
+        if self.viols.len() < self.viol_cap && !self.viols.iter().any(|x| x.key == v.key) {
             self.viols.push(v);
         }
     }
@@ -359,7 +363,7 @@ impl Report {
         cov.insert("observed_outcomes".into(), json!(self.outcomes));
         cov.insert("known_findings_matched".into(), json!(matched.iter().map(|(k, v)| json!({"id": k, "keys": v.1})).collect::<Vec<_>>()));
         cov.insert("violation_cases_total".into(), json!(self.viol_total));
-        cov.insert("unlisted_violation_keys".into(), json!(unlisted.iter().map(|v| v.key.clone()).take(50).collect::<Vec<_>>()));
+        cov.insert("unlisted_violation_keys".into(), json!(unlisted.iter().map(|v| v.key.clone()).take(if std::env::var("VERIF_DUMP").is_ok() { 100000 } else { 50 }).collect::<Vec<_>>()));
         cov.insert("violation_classes".into(), json!(self.classes));
         cov.insert("machinery_errors".into(), json!(self.machinery_errors));
         for (k, v) in &self.extra { cov.insert(k.clone(), v.clone()); }
